@@ -49,13 +49,22 @@ Definition cargo_oracle (c : bytes * node * list (bytes * bytes) * list (bytes *
    document (the real answers of pep508_rs, specifiers normalised by the driver) *)
 Definition req_of_tape (tape : list (bytes * option (bytes * bytes))) (s : bytes) : option (bytes * bytes) :=
   match find (fun p => beq (fst p) s) tape with Some p => snd p | None => None end.
+Fixpoint sublist_b (a b : list (bytes * bytes)) : bool :=
+  match a, b with
+  | [], _ => true
+  | _, [] => false
+  | x :: a', y :: b' => if pair_eqb x y then sublist_b a' b' else sublist_b a b'
+  end.
 Definition pyproject_oracle (c : bytes * node * list (bytes * option (bytes * bytes)) * list (bytes * bytes) * list (bytes * bytes)) : N :=
   let '(content, cst, tape, impl, expected) := c in
   match denote_toml content cst with
   | None => 4
   | Some d =>
       let decl := declared_pyproject (req_of_tape tape) d in
-      let known := pyproject_known d || negb (plain_pyproject content cst) in
+      (* a quoted key hides entries (C04-toml-quoted-key): the checked list may only be shorter; other spellings
+         outside plain_pyproject (escapes in strings) change names and specs themselves *)
+      let known := pyproject_known d || negb (plain_toml_nq true content cst)
+                   || (negb (plain_pyproject content cst) && sublist_b impl decl) in
       if negb (list_eqb pair_eqb decl expected) then 5
       else if list_eqb pair_eqb impl decl then 0 else if known then 7 else 6
   end.
